@@ -2057,3 +2057,13 @@ def r8_10(rep):
               "the request for a hand-written Debug impl %s: a packed type that is not Copy gets `impl Debug` that borrows its fields" %
               ("does not look at `packed` / the COPY bit" if not (pk_atoms and copy_atoms) else "can be true for packed, non-Copy types"),
               b.loc(asg[0]))
+
+
+@RULES.rule("R8.11", "a blocklisted type is only vouched for as a primitive when codegen really maps it to one (shared with C09 R9.5)", floor=14)
+def r8_11(rep):
+    """`blocklisted_type_implements_trait` answers Yes for every trait of a blocklisted `<stdint.h>`-style typedef because codegen
+    replaces it by a Rust primitive (`is_stdint_type`).  `size_t`/`ssize_t` are only replaced under `size_t_is_usize`; answering
+    Yes unconditionally derives Debug/Copy/Hash/PartialEq/Eq through a user-supplied `size_t` nobody vouched for
+    (`--no-size_t-is-usize --blocklist-type size_t`)."""
+    import c09
+    c09.r9_5(rep)
